@@ -354,8 +354,10 @@ class Ctx:
         cov.update(self.extra)
         ev = {"property_id": self.prop, "tier": self.tier, "seed": self.seed, "level": level, "coverage": cov,
               "assumptions": list(assumptions), "wall_s": wall, "violations": len(self.rejections)}
-        os.makedirs(os.path.join(VERIF, "evidence"), exist_ok=True)
-        with open(os.path.join(VERIF, "evidence", self.prop + ".json"), "w") as f:
+        # evidence/<id>.json describes runs against /repo itself; a run against a scratch copy (HWLOC_REPO) must not overwrite it
+        evdir = os.path.join(VERIF, "evidence") if os.path.realpath(REPO) == "/repo" else os.path.join(VERIF, "evidence", "scratch-runs")
+        os.makedirs(evdir, exist_ok=True)
+        with open(os.path.join(evdir, self.prop + ".json"), "w") as f:
             json.dump(ev, f, indent=1)
         for r in self.rejections:
             log("rejected event:", r["event"][:1500])
